@@ -28,7 +28,7 @@ func run(c *hlib.Ctx) {
 		"(duplicate keys, int/string/null/missing keys, equal-bytes/different-type pairs) + 2..12 operations drawn step by step from " +
 		"{load, delete(ids), delete with duplicate / dead / unknown ids, delete-where(pred), compact(ids, vectors?), vector add/del, vacuum} " +
 		"against the currently observed objects; distinct = distinct (config, operation sequence); every step compares real lake vs trivial reference (oracle) and vs the Lean model")
-	base := map[string]int{"load": 30, "delete": 10, "badid": 4, "delwhere": 14, "compact": 14, "addvec": 5, "delvec": 3, "vacuum": 6}
+	base := map[string]int{"load": 30, "delete": 10, "badid": 4, "delwhere": 14, "compact": 14, "addvec": 5, "delvec": 3, "vacuum": 6, "manage": 8}
 	guarded := lakeh.Profile{Name: "c14-guarded", W: base, MaxOps: 12, Guarded: true}
 	w2 := map[string]int{}
 	for k, v := range base {
